@@ -311,6 +311,63 @@ Definition multi_fill (merge : bool) (k : key) (parts : list part) (final : posi
      end, w3)
   else (r, w1).
 
+(* ================= pkg/api/attach.go : attachment extraction with output reservations ================= *)
+(* one attachment: its hidden reservation marker `.<name>.pdfcpu-reservation-<token>`, its output path, what
+   is written and how that write ends *)
+Record att := Att { a_mark : positive; a_out : positive; a_chunks : list bytes; a_fin : ctl }.
+
+(* os.OpenFile(reservationPath, O_WRONLY|O_CREATE|O_EXCL, 0o600) *)
+Definition reserve_one (p : positive) (w : world) : outcome unit :=
+  call fault OpOpenExcl p p w (fun m => match m !! p with
+                                        | Some _ => (m, inr EEXIST)
+                                        | None => (<[p := File [] mode_tmp]> m, inl tt) end).
+
+(* reserveAttachmentOutputs: reserve marker after marker; EVERY error return hands the list reserved so far
+   (rr) to the caller.  On ErrExist attachmentReservationConflictID stats the marker and the reservations
+   (read-only calls; modelled as one stat of the marker and one per reservation).
+   Result: (failed?, rr, world). *)
+Fixpoint reserve_all (aa : list att) (rr : list positive) (w : world) : bool * list positive * world :=
+  match aa with
+  | [] => (false, rr, w)
+  | a :: rest =>
+      match reserve_one (a_mark a) w with
+      | Done _ w' => reserve_all rest (rr ++ [a_mark a]) w'
+      | Fail EEXIST w' =>
+          let w1 := world_of (stat (a_mark a) w') in
+          (true, rr, fold_left (fun wx p => world_of (stat p wx)) rr w1)
+      | Fail _ w' => (true, rr, w')
+      end
+  end.
+
+(* releaseAttachmentOutputReservations(rr): closeFile + removeFile for every reservation, all attempted *)
+Fixpoint release_all (rr : list positive) (w : world) : bool * world :=
+  match rr with
+  | [] => (false, w)
+  | p :: ps => let o := close p w in
+               let '(b1, w1) := remove_file p (world_of o) in
+               let '(b2, w2) := release_all ps w1 in
+               (failed o || b1 || b2, w2)
+  end.
+
+(* writeAttachments(outDir, aa):
+     rr, err := reserveAttachmentOutputs(paths, aa)
+     if err != nil { return errors.Join(err, releaseAttachmentOutputReservations(rr)) }
+     defer func() { err = errors.Join(err, releaseAttachmentOutputReservations(rr)) }()
+     for each attachment { writeAttachmentToPath = openStagedOutput(nil, "", path); io.Copy; cleanup | commit  (key k) }
+   The write loop is `fill_loop` (no early failure, nothing recorded for a rollback: earlier outputs stay). *)
+Definition att_part (a : att) : part := Part COk (a_out a) (a_chunks a) (a_fin a).
+Definition extract_attachments (k : key) (aa : list att) (w : world) : ctl * world :=
+  let '(failed, rr, w1) := reserve_all aa [] w in
+  if failed then (CErr, snd (release_all rr w1))
+  else
+    let '(r, _, w2) := fill_loop k (map att_part aa) [] w1 in
+    let '(bad, w3) := release_all rr w2 in
+    (match r with
+     | CPanic => CPanic
+     | CErr => CErr
+     | COk => if bad then CErr else COk
+     end, w3).
+
 End Protocols.
 
 (* ---------- entry points for the correspondence harness (extracted) ---------- *)
